@@ -381,6 +381,31 @@ func main() {
 	re := &osm.Relation{ID: 9, Timestamp: ep, Members: osm.Members{{Type: "relation", Ref: 1, Lat: 1, Lon: 2, Orientation: 1, Nodes: osm.WayNodes{{ID: 1}}}}}
 	mk("Relation", re, always.Relation(re), "corpus-epoch", true, nil)
 
+	// wave 6: coordinates that need more than 7 decimals in every float attribute of every type
+	ff := xcodec.FineFloats
+	for i := 0; i+3 < len(ff); i += 4 {
+		fb := &osm.Bounds{MinLat: ff[i], MaxLat: ff[i+1], MinLon: ff[i+2], MaxLon: ff[i+3]}
+		fn := &osm.Node{ID: 1, Lat: ff[i], Lon: ff[i+1], Visible: true}
+		fw := &osm.Way{ID: 2, Nodes: osm.WayNodes{{ID: 1, Lat: ff[i+2], Lon: ff[i+3]}}, Updates: osm.Updates{{Index: 0, Version: 1, Lat: ff[i+1], Lon: ff[i+2]}}, Bounds: fb}
+		fr := &osm.Relation{ID: 3, Members: osm.Members{{Type: "node", Ref: 1, Lat: ff[i+3], Lon: ff[i], Nodes: osm.WayNodes{{ID: 1, Lat: ff[i+1], Lon: ff[i+3]}}}}, Bounds: fb}
+		mk("Node", fn, always.Node(fn), "corpus-fine-floats", true, nil)
+		mk("Way", fw, always.Way(fw), "corpus-fine-floats", true, nil)
+		mk("Relation", fr, always.Relation(fr), "corpus-fine-floats", true, nil)
+		if i%8 == 0 {
+			fu := &osm.User{ID: 1}
+			fu.Home.Lat, fu.Home.Lon = ff[i], ff[i+3]
+			fc := &osm.Changeset{ID: 1, MinLat: ff[i], MaxLat: ff[i+1], MinLon: ff[i+2], MaxLon: ff[i+3]}
+			fo := &osm.Note{ID: 1, Lat: ff[i+1], Lon: ff[i+2]}
+			mk("Changeset", fc, always.Changeset(fc), "corpus-fine-floats", true, nil)
+			mk("Note", fo, always.Note(fo), "corpus-fine-floats", true, nil)
+			mk("User", fu, always.User(fu), "corpus-fine-floats", true, nil)
+			fd := &osm.OSM{Version: "0.6", Bounds: fb, Nodes: osm.Nodes{fn}, Ways: osm.Ways{fw}, Relations: osm.Relations{fr}}
+			mk("OSM", fd, always.OSM(fd), "corpus-fine-floats", true, nil)
+			fch := &osm.Change{Create: &osm.OSM{Bounds: fb, Nodes: osm.Nodes{fn}}, Modify: &osm.OSM{Ways: osm.Ways{fw}}, Delete: &osm.OSM{Bounds: fb}}
+			mk("Change", fch, changeTree(rng, always, fch, w), "corpus-fine-floats", true, nil)
+		}
+	}
+
 	// known findings of C03: an unknown element wrapping an object element, and an element whose
 	// name is an object kind up to ASCII case — the streaming scanner takes the inner / the
 	// case-folded element for an object, the whole-document decoder ignores it
